@@ -8,9 +8,14 @@ THEOREMS = [f"Nice.Props.C19.{t}" for t in (
     "C19_retransmit_count_le", "C19_timeout_after_exact_count", "C19_no_retransmit_after_timeout",
     "C19_remainder_zero_from_deadline", "C19_timeout_reached", "C19_remainder_le_delay_start",
     "C19_remainder_le_delay_refresh", "C19_wait_schedule", "C19_exact_sequence",
-    "C19_range_no_overflow", "remainder_le", "refresh_inv", "start_inv")]
+    "C19_range_no_overflow", "remainder_le", "refresh_inv", "start_inv")] + [
+    "Nice.Props.C19Tick.C19_timer_stops_only_without_work", "Nice.Props.C19Tick.summary_ok"]
 TRUSTED = [
     "Lean 4 kernel; axioms allowed: propext, Classical.choice, Quot.sound (audited by #print axioms on every run)",
+    "Nice/Gen/ConnCheckTick.lean: skeleton of the pacing-timer callback priv_conn_check_tick_agent_locked REGENERATED from the source "
+    "on every run (tools/extract_flow.py; tracked: keep_timer_going, stun_sent, the answers of priv_conn_check_tick_stream_nominate); "
+    "C19_timer_stops_only_without_work holds for every execution of it (Nice/Model/Flow.lean): the agent-level clause 'a black-holed "
+    "check is abandoned after exactly N transmissions' needs the timers of every stream to keep being polled",
     "hand-written model Nice/Model/Timer.lean of stun/usages/timer.c, tied by the kern_drv differential stream (virtual clock via interposed clock_gettime)",
     "clock modelled as one monotonic microsecond counter split as tv_sec/tv_usec; Windows and gettimeofday fallback paths not modelled",
     "agent-level claim (a black-holed check is abandoned after N transmissions): observed on real agents in simulation with the "
